@@ -95,6 +95,26 @@ LaueGenerators(l, choice) ==
     [] OTHER -> {}
 LaueGroup(l, choice) == Closure(LaueGenerators(l, choice) \cup {I3})
 
+(* Screw axes along c named by the Hermann-Mauguin symbol (International Tables A, reference data of this specification):     *)
+(* <<number, N, k>> means the symbol of that space group contains N_k, so the counter-clockwise N-fold rotation about c must    *)
+(* occur with the translation k/N along c (an intrinsic component, independent of the origin; centring may add 1/2).  This is   *)
+(* what distinguishes the enantiomorphic pairs (P41 / P43, P31 / P32, P61 / P65, P62 / P64, ...), which are both groups of the  *)
+(* same order, with the same Laue group, metric and reflection conditions.                                                     *)
+Screws == {<<76,4,1>>, <<77,4,2>>, <<78,4,3>>, <<80,4,1>>, <<84,4,2>>, <<86,4,2>>, <<88,4,1>>, <<91,4,1>>, <<92,4,1>>, <<93,4,2>>,
+           <<94,4,2>>, <<95,4,3>>, <<96,4,3>>, <<98,4,1>>, <<101,4,2>>, <<102,4,2>>, <<105,4,2>>, <<106,4,2>>, <<109,4,1>>,
+           <<110,4,1>>, <<131,4,2>>, <<132,4,2>>, <<133,4,2>>, <<134,4,2>>, <<135,4,2>>, <<136,4,2>>, <<137,4,2>>, <<138,4,2>>,
+           <<141,4,1>>, <<142,4,1>>, <<144,3,1>>, <<145,3,2>>, <<151,3,1>>, <<152,3,1>>, <<153,3,2>>, <<154,3,2>>,
+           <<169,6,1>>, <<170,6,5>>, <<171,6,2>>, <<172,6,4>>, <<173,6,3>>, <<176,6,3>>, <<178,6,1>>, <<179,6,5>>, <<180,6,2>>,
+           <<181,6,4>>, <<182,6,3>>, <<185,6,3>>, <<186,6,3>>, <<193,6,3>>, <<194,6,3>>,
+           <<208,4,2>>, <<210,4,1>>, <<212,4,3>>, <<213,4,1>>, <<214,4,1>>}
+RotN(k) == CASE k = 3 -> Rot3zH [] k = 4 -> Rot4z [] k = 6 -> Rot6zH
+ScrewLaw(tb) == \A sc \in Screws : (sc[1] = tb.no /\ tb.cell_choice # "rhombohedral") =>
+   \E i \in 1..NOps(tb) : tb.rot[i] = RotN(sc[2]) /\ (tb.trans[i][3] - (T24 \div sc[2]) * sc[3]) % T24 = 0
+(* ... and the symbol itself carries it: the name of a listed group shows N followed by k right after the lattice letter *)
+NameCore(tb) == SelectSeq(tb.name, LAMBDA c : c \notin {9, 10, 11, 12, 13, 32})
+ScrewInName(tb) == \A sc \in Screws : sc[1] = tb.no =>
+   LET nm == NameCore(tb) IN Len(nm) >= 3 /\ nm[2] = 48 + sc[2] /\ nm[3] = 48 + sc[3]
+
 PreservesMetric(R, E) == MatMul(Transpose(R), MatMul(E, R)) = E
 
 CentringTranslations(tb) == {o.t : o \in {p \in Ops(tb) : p.r = I3}}
@@ -116,13 +136,15 @@ Laws(tb) ==
     laue         |-> /\ LaueOrder(tb.Laue) > 0
                      /\ Cardinality(rots \cup {MatNeg(R) : R \in rots}) = LaueOrder(tb.Laue),
     lauegroup    |-> rots \cup {MatNeg(R) : R \in rots} = LaueGroup(tb.Laue, tb.cell_choice),
+    screw        |-> ScrewLaw(tb) /\ ScrewInName(tb),
+    distinct     |-> \A j \in 1..Len(Tables) : (Tables[j].no # tb.no) => (Ops(Tables[j]) # ops),
     system       |-> tb.crystal_system \in SystemOfLaue(tb.Laue),
     metric       |-> /\ basis # {}
                      /\ \A R \in rots : \A E \in basis : PreservesMetric(R, E),
     number       |-> tb.own_no = tb.no /\ tb.no \in 1..230 ]
 
 LawNames == {"wellformed","count","identity","nodup","closed","inverses","nuniq","centring",
-             "laue","lauegroup","system","metric","number"}
+             "laue","lauegroup","screw","distinct","system","metric","number"}
 Failed(tb) == LET l == Laws(tb) IN {nm \in LawNames : ~l[nm]}
 
 
